@@ -44,6 +44,10 @@ PartitionInv == stage = 2 =>
 DoneIsNerode == Done => P = NerodePartition(D)
 DoneIsMoore == Done => P = MoorePartition(D)        \* the same statement through the cheap formulation
 DoneResultOk == Done => ResultOk(D, M)
+(* C13 inside the specification: the minimal-DFA checker compares the number of states with the   *)
+(* library's quotient (= the Myhill-Nerode classes of ALL states) and the languages               *)
+OwnAnswerPassesMinimalChecker ==
+  Done => /\ M.S = D.S /\ Cardinality(M.Q) = NerodeClasses(D, D.Q) /\ FaEquiv(D, M)
 InputUnchanged == [][stage = 2 => D' = D]_vars
 Terminates == <>Done
 (* variant: each step either splits a block or shrinks W *)
